@@ -62,7 +62,11 @@ _TMP = []
 def tmp_root():
     """A scratch directory outside /repo and /verif, removed at exit."""
     if not _TMP:
-        d = tempfile.mkdtemp(prefix='c17-verif-')
+        # tmpfs when there is one: creating a cache directory costs several fsyncs, which dominate the
+        # run time on a busy disk; a SIGKILL loses nothing that is in the page cache, so the crash runs
+        # see the same file contents on either file system.  C17_TMPDIR overrides.
+        base = os.environ.get('C17_TMPDIR') or ('/dev/shm' if os.access('/dev/shm', os.W_OK) else None)
+        d = tempfile.mkdtemp(prefix='c17-verif-', dir=base)
         real = os.path.realpath(d)
         assert not real.startswith(os.path.realpath(common.REPO) + os.sep)
         assert not real.startswith(os.path.realpath(common.VERIF) + os.sep)
